@@ -297,6 +297,22 @@ func discharge(ob *Obligation, tag string, timeout int, thorough bool, values []
 			r = worst
 		}
 	}
+	if ob.Cover && r.Status != "sat" && r.Status != "unsat" {
+		// reachability with quantified assumptions is rarely decided; fall back to the quantifier-free part
+		var alts []*Term
+		for _, c := range ob.Cases {
+			alts = append(alts, stripForall(c.PC))
+		}
+		lite := []*Term{Or(alts...)}
+		lite = append(lite, namedDefs(lite)...)
+		lite = append(lite, literalAxioms(lite)...)
+		r2 := runSolver(solvers[0], Script(lite, ScriptOpts{}), tag+".covlite", 5)
+		tried = append(tried, fmt.Sprintf("z3-new(lite-cover):%s:%.2fs", r2.Status, r2.Seconds))
+		if r2.Status == "sat" || r2.Status == "unsat" {
+			r = r2
+			r.Solver = "z3-new(lite-cover)"
+		}
+	}
 	r.Tried = tried
 	if r.Status == "sat" {
 		r.Values = parseValues(r.Output)
